@@ -82,6 +82,9 @@ std::string handle(const std::string& op, const Args& a) {
     PROG2("sub_maxall_x",     view::subtract(MAXALL(x0), x1))
     PROG3("neg_mul_sumall_mul_x", view::negative(view::multiply(SUMALL(view::multiply(x0, x1)), x2)))
     PROG2("add_x_maxall",     view::add(x0, MAXALL(x1)))
+    // a number literal operand: passed to the kernel by value (context_t::run, sycl/context.hpp:585)
+    PROG1("add_x_lit",        view::add(x0, (int)integer(a,"lit")))
+    PROG1("mul_lit_x",        view::multiply((int)integer(a,"lit"), x0))
 #elif C13_SYCL_GROUP == 3
     // column-major host arrays (known finding kernel.colmajor-operand)
     PROG1("transpose_col", view::transpose(x0, AXES))
